@@ -11,7 +11,7 @@ import ast
 from typing import List, Optional, Set
 
 from ..model import Program, AnalysisError, FuncInfo, walk_local, dotted
-from ..report import RuleResult
+from ..report import RuleResult, guard
 from .usertruth import user_truth
 from ..astutil import src, site, calls_in, call_name, is_self_attr, is_super_call
 from ..callgraph import closure, resolve_call, Ctx
@@ -419,11 +419,53 @@ def sg_singleton(prog: Program) -> RuleResult:
     return r
 
 
+def domain_given(prog: Program) -> RuleResult:
+    """let(T, domain) with a domain - any iterable, an empty one included - ranges over that domain; only `domain=None` means "every live
+    instance of T".  On every path through the function that turns (domain, type) into the variable's source, the symbol graph is consulted
+    exactly when `domain is None` was established, and otherwise the source is made from the domain given."""
+    from ..dtable import explore, Sym, term
+
+    r = RuleResult("DOMAIN-GIVEN", "a domain that is given is the domain; the symbol graph stands in for None only", floor=2)
+    fs = [f for f in prog.functions.values() if f.cls is None and f.module.name.endswith("entity_query_language.entity")
+          and any(call_name(c) == "get_instances_of_type" for c in calls_in(f.node))]
+    if not fs:
+        raise AnalysisError("DOMAIN-GIVEN: no function of entity.py reads the instances of a type from the symbol graph")
+    for f in fs:
+        dom = [p for p in f.params if "domain" in p]
+        if not dom:
+            raise AnalysisError(f"DOMAIN-GIVEN: {f.short} has no domain parameter")
+        d = dom[0]
+        paths = explore(prog, f, [Sym(p) for p in f.params], max_paths=400)
+        bad_graph = bad_given = None
+        n_graph = n_given = 0
+        for v, o, calls in paths:
+            is_none = None
+            for k, val in v.items():
+                if isinstance(k, tuple) and len(k) == 3 and k[0] in ("is", "eq") and {x if isinstance(x, str) else term(x) for x in k[1:]} == {d, "None"}:
+                    is_none = val
+            graph = any("get_instances_of_type" in term(c) for c in calls)
+            if graph:
+                n_graph += 1
+                if is_none is not True:
+                    bad_graph = bad_graph or v
+            elif is_none is not True:
+                n_given += 1
+                if d not in term(o):
+                    bad_given = bad_given or (v, o)
+        show = lambda v: {" ".join(term(x) if not isinstance(x, str) else x for x in k) if isinstance(k, tuple) else term(k): val for k, val in v.items()}
+        r.check(n_graph > 0 and bad_graph is None, f"{f.short}#graph-for-none-only", site(f), f"{n_graph} path(s) read the symbol graph", f"each of them has established `{d} is None`",
+                f"on the path {show(bad_graph) if bad_graph else ''} the instances are taken from the symbol graph although `{d} is None` was not established: an explicitly empty domain "
+                f"(let(T, []), a filter that left nothing) ranges over every live instance of T - the(...) finds strangers, an(..., Exactly(0)) raises")
+        r.check(n_given > 0 and bad_given is None, f"{f.short}#given-domain-is-the-source", site(f), f"{n_given} path(s) with a domain given", f"the source is made from `{d}`",
+                f"on the path {show(bad_given[0]) if bad_given else ''} the source {term(bad_given[1])[:60] if bad_given else ''} is not made from the domain given")
+    return r
+
+
 def run(prog: Program, tier: str) -> List[RuleResult]:
     from .c03 import domain_cache, live_iter
 
     # the census reaches the variable through the caching iterator: an instance dropped from the cache is missing from the range
-    return [sg_register(prog), sg_enum(prog), sg_sweep(prog, census_only=True), sg_evaltime(prog), domain_cache(prog),
-            user_truth(prog, ["entity_query_language.symbol_graph"], 3), _idkey(prog),
+    return [guard(lambda: sg_register(prog)), guard(lambda: sg_enum(prog)), guard(lambda: sg_sweep(prog, census_only=True)), guard(lambda: sg_evaltime(prog)), guard(lambda: domain_cache(prog)),
+            guard(lambda: user_truth(prog, ["entity_query_language.symbol_graph"], 3)), guard(lambda: _idkey(prog)),
             # the enumeration is consumed lazily: a sweep between two of its steps must not shift the list under it (a live instance skipped)
-            live_iter(prog), sg_singleton(prog)]
+            guard(lambda: live_iter(prog)), guard(lambda: sg_singleton(prog)), guard(lambda: domain_given(prog))]
